@@ -6,16 +6,41 @@ import ZvbiModel.Ttx.Lemmas6
 namespace Zvbi.Ttx
 open Zvbi.Hamm Zvbi.Gen Zvbi.Ttx.Spec
 
+theorem headerFresh_keys (n : Net) (cv0 : Page) (page : Nat) (row0 : List Nat) :
+    (headerFresh n cv0 page row0).1.pgno = cv0.pgno ∧ (headerFresh n cv0 page row0).1.subno = cv0.subno := by
+  unfold headerFresh
+  simp only []
+  repeat' split
+  all_goals exact ⟨rfl, rfl⟩
+
+theorem headerConvert_keys (n : Net) (cv : Page) (page : Nat) :
+    (headerConvert n cv page).1.pgno = cv.pgno ∧ (headerConvert n cv page).1.subno = cv.subno := by
+  unfold headerConvert
+  split
+  · simp only []
+    split
+    · split
+      · rename_i cv' hc
+        have := convertPage_keys n cv cv' _ (convertPage n cv _).2.1 (convertPage n cv _).2.2
+          (by rw [← hc])
+        exact this
+      · exact ⟨rfl, rfl⟩
+    · exact ⟨rfl, rfl⟩
+  · exact ⟨rfl, rfl⟩
+
 theorem headerPage_keys (n : Net) (cv0 : Page) (page subpage fl : Nat) (row0 : List Nat) :
     (headerPage n cv0 page subpage fl row0).1.pgno = cv0.pgno ∧
     (headerPage n cv0 page subpage fl row0).1.subno = subpage &&& 0x3F7F := by
   unfold headerPage
   simp only []
-  repeat' split
-  all_goals
-    first
-    | exact ⟨rfl, rfl⟩
-    | (rename_i hc; have := convertPage_keys _ _ _ _ _ _ hc; exact ⟨this.1, this.2⟩)
+  split
+  · have h := headerConvert_keys
+    simp only [h]
+    exact ⟨rfl, rfl⟩
+  · have h := headerConvert_keys
+    have h2 := headerFresh_keys
+    simp only [h, h2]
+    exact ⟨trivial, trivial⟩
 
 /-- (pgno, subno) is what the decoder computed from some accepted header of the history -/
 def Sent (H : List Packet) (pgno subno : Nat) : Prop :=
